@@ -55,7 +55,7 @@ def guarded_by_call(body, blk, rx, truth):
 
 def guarded_by_phase(body, blk, vidx):
     for g in body.guards(blk, select_aware=False):
-        if g.atom[0] == "discr" and g.atom[2] == PHASE_ADT and g.atom[1].endswith(".phase") and g.label == vidx:
+        if g.atom[0] == "discr" and g.atom[2] == PHASE_ADT and g.atom[1].endswith(".phase") and g.is_value(vidx, 6):
             return g
     return None
 
